@@ -200,6 +200,21 @@ fn type_flood(run: &mut Run, is_client: bool, prelude: &[Vec<u8>], typ: u8, star
     run.count(&format!("dtlslive:end_state:{st}:{}", s.state_text()));
 }
 
+/// 70 000 ChangeCipherSpec records (100 per datagram) to a lone endpoint: `read_epoch` must saturate, not overflow
+fn ccs_flood(run: &mut Run, is_client: bool) {
+    let st = if is_client { "flood-ccs-client" } else { "flood-ccs-server" };
+    let mut s = Session::new(false, is_client, usize::MAX);
+    s.step(1);
+    for k in 0..700u64 {
+        let mut d = vec![];
+        for j in 0..100u64 { d.extend_from_slice(&[20, 254, 253, 0, 0]); d.extend_from_slice(&(k * 100 + j).to_be_bytes()[2..]); d.extend_from_slice(&[0, 1, 1]); }
+        run_inject_fast(run, &mut s, st, 0, &d);
+        if run.fails.iter().any(|f| f.case.starts_with(&format!("dtlslive {st}"))) { break; }
+    }
+    run_inject(run, &mut s, st, 0, &[22, 254, 253, 0, 0], true);
+    run.count(&format!("dtlslive:end_state:{st}:{}", s.state_text()));
+}
+
 /// 66 000 HelloVerifyRequests (message_seq 0 each time — the client re-synchronises after every HVR) to a lone client:
 /// every one makes the client send a fresh ClientHello and advance its own 16-bit `message_seq`
 fn hvr_flood(run: &mut Run) {
@@ -309,6 +324,8 @@ pub fn special(run: &mut Run, rng: &mut Rng, thorough: bool) {
     let per = if thorough { 3_000 } else { 150 };
     for i in 0..(if thorough { 6_000 } else { 400 }) { run_dtlsctx(run, rng, i % 4 == 3, None); }
     hvr_flood(run);
+    ccs_flood(run, false);
+    if thorough { ccs_flood(run, true); }
     {
         use rustrtc::transports::dtls::handshake::HandshakeType as T;
         for _ in 0..(if thorough { 2_000 } else { 120 }) {
@@ -381,6 +398,8 @@ pub fn replay_special(run: &mut Run, stream: &str, a: &[&str]) -> bool {
     let state = a[0]; let i: usize = a[1].parse().unwrap_or(0);
     let mut s = match state {
         "flood-hvr" => { let mut r2 = Run::new("c07", "/tmp/c07-replay-flood"); hvr_flood(&mut r2);
+            for f in &r2.fails { run.fails.push(f.clone()); } let _ = std::fs::remove_dir_all("/tmp/c07-replay-flood"); return true; }
+        "flood-ccs-server" | "flood-ccs-client" => { let mut r2 = Run::new("c07", "/tmp/c07-replay-flood"); ccs_flood(&mut r2, state.ends_with("client"));
             for f in &r2.fails { run.fails.push(f.clone()); } let _ = std::fs::remove_dir_all("/tmp/c07-replay-flood"); return true; }
         st if st.starts_with("flood-server-t") || st.starts_with("flood-client-t") => {
             // the flood is the witness (the single datagram of the case line does not reproduce accumulated state):
